@@ -263,7 +263,7 @@ def gen_c09(rng):
             if rng.random() < 0.4:
                 ops.append(['release', hi, None])
             else:
-                res = {n: rng.choice((0, 1, 1, 2, -1, 7)) for n in rng.sample(NAMES + (UNKNOWN,), rng.randint(1, 3))}
+                res = {n: rng.choice((0, 1, 1, 2, -1, 7)) for n in rng.sample(NAMES + (UNKNOWN,), rng.randint(0 if rng.random() < 0.3 else 1, 3))}
                 ops.append(['release', hi, res])
         elif x < 0.95:
             ops.append(['merge', rng.randrange(4), rng.randrange(4)])
@@ -277,7 +277,7 @@ SYS_OPS = [
     ['reserve', {'a': 1}], ['reserve', {'a': 1, 'b': 1}], ['reserve', {'a': 1, 'b': -1}], ['reserve', {'a': 2}],
     ['reserve', {'b': 0, 'c': 1}],
     ['release', 0, None], ['release', 0, {'a': 1}], ['release', 0, {'a': 1, 'zz': 0}], ['release', 1, None],
-    ['release', 0, {'a': 2}], ['release', 0, {'b': -1}], ['merge', 0, 1],
+    ['release', 0, {'a': 2}], ['release', 0, {'b': -1}], ['merge', 0, 1], ['release', 0, {}],
 ]
 
 
@@ -347,6 +347,7 @@ class TimedPoolRunner(core.Hooks):
         self.waiting = []      # model: list of dict(id, req, cb)
         self.cb_log = []       # (req id, now)
         self.handles = []
+        self.hold_model = []     # harness view of what each handle holds (parallel to self.handles)
         self.step_no = 0
         self.ids = itertools.count(1)
         self.called = {}
@@ -387,15 +388,41 @@ class TimedPoolRunner(core.Hooks):
                 h = rm.reserve_resources(dict(req))
                 if h is None:
                     self.fail('C10.c', f'inside its callback request #{rid} {req} could not be reserved', 'not_reservable')
-                self.handles.append(h)
+                self.add_handle(h, req)
             elif kind == 'register':
                 self.register({k: v for k, v in req.items()}, 'reserve')
+            elif kind == 'release':
+                # gives something back from inside the callback: requests skipped earlier in this pass may fit now
+                self.release_first()
+                self.bump(self.stats['reach'], 'release_inside_callback')
+            elif kind == 'add':
+                n = sorted(req)[0]
+                rm.add_resources(n, 1)
+                self.bump(self.stats['reach'], 'add_inside_callback')
         return cb
 
-    def register(self, req, kind):
+    def add_handle(self, h, req):
+        self.handles.append(h)
+        self.hold_model.append({n: a for n, a in req.items() if a > 0})
+
+    def release_first(self, k=0):
+        live = [i for i, hm in enumerate(self.hold_model) if hm]
+        if not live:
+            return
+        i = live[k % len(live)]
+        self.handles[i].release()
+        self.hold_model[i] = {}
+
+    def register(self, req, kind, mutate=False):
         rid = next(self.ids)
         orig = dict(req)
         self.rm.reserve_resources_with_callback(orig, self.make_cb(rid, dict(req), kind, orig))
+        if mutate:
+            # the caller reuses its dict afterwards: the waiting request must be the copy taken at registration
+            for n in list(orig):
+                orig[n] = 99
+            orig['zz'] = 1
+            self.bump(self.stats['reach'], 'caller_dict_reused')
         self.waiting.append({'id': rid, 'req': dict(req), 'kind': kind})
         self.stats['registered'] += 1
         return rid
@@ -406,15 +433,13 @@ class TimedPoolRunner(core.Hooks):
         k = op['op']
         self.bump(self.stats['faults'], k)
         if k == 'register':
-            self.register(op['req'], op['cb'])
+            self.register(op['req'], op['cb'], op.get('mut', False))
         elif k == 'reserve':
             h = rm.reserve_resources(dict(op['req']))
             if h is not None:
-                self.handles.append(h)
+                self.add_handle(h, op['req'])
         elif k == 'release':
-            live = [h for h in self.handles if h.reserved_resources]
-            if live:
-                live[op['i'] % len(live)].release()
+            self.release_first(op['i'])
         elif k == 'add':
             try:
                 rm.add_resources(op['res'], op['amt'])
@@ -433,6 +458,7 @@ class TimedPoolRunner(core.Hooks):
         exp = []
         i = 0
         n_new = 0
+        holds = [dict(h) for h in self.hold_model]
         waiting = list(self.waiting)
         while i < len(waiting):
             w = waiting[i]
@@ -443,6 +469,16 @@ class TimedPoolRunner(core.Hooks):
                     for n, a in w['req'].items():
                         if a > 0:
                             use[n] += a
+                    holds.append({n: a for n, a in w['req'].items() if a > 0})
+                elif w['kind'] == 'release':
+                    for hm in holds:
+                        if hm:
+                            for n, a in hm.items():
+                                use[n] -= a
+                            hm.clear()
+                            break
+                elif w['kind'] == 'add':
+                    cap[sorted(w['req'])[0]] += 1
                 elif w['kind'] == 'register':
                     waiting.append({'id': ('new', n_new), 'req': dict(w['req']), 'kind': 'reserve'})
                     n_new += 1
@@ -565,7 +601,8 @@ def gen_c10(rng):
         if x < 0.35:
             req = {n: rng.choice((0, 1, 1, 2, 3)) for n in rng.sample(NAMES, rng.choice((1, 1, 2, 3)))}
             ops.append({'t': t, 'pr': pr, 'op': 'register', 'req': req,
-                        'cb': rng.choice(('reserve', 'reserve', 'reserve', 'none', 'register'))})
+                        'cb': rng.choice(('reserve', 'reserve', 'reserve', 'none', 'register', 'release', 'add')),
+                        'mut': rng.random() < 0.15})
         elif x < 0.55:
             req = {n: rng.choice((1, 1, 2)) for n in rng.sample(NAMES, rng.choice((1, 1, 2)))}
             ops.append({'t': t, 'pr': pr, 'op': 'reserve', 'req': req})
